@@ -104,7 +104,9 @@ pub fn run_tasks(
                 format!("no termination within {step_bound} polls (spin or livelock)"),
             ));
         }
-        if tasks[pick].as_mut().poll(&mut cx).is_ready() {
+        let r = tasks[pick].as_mut().poll(&mut cx).is_ready();
+        simcore::log(|| format!("task {pick} polled -> {}", if r { "done" } else { "pending" }));
+        if r {
             done[pick] = true;
         }
         simcore::pending()?;
